@@ -68,9 +68,9 @@ func sharedRoot(v ssa.Value) (string, bool) {
 	for i := 0; i < 40; i++ {
 		switch x := v.(type) {
 		case *ssa.FieldAddr:
-			if tk := typeKey(x.X.Type()); shareable[tk] {
+			if tk := faType(x); shareable[tk] {
 				if _, fresh := rootOfAddr(x.X).(*ssa.Alloc); !fresh {
-					return tk + "." + fieldName(x.X.Type(), x.Field), true
+					return tk + "." + faName(x), true
 				}
 				return "", false
 			}
@@ -125,11 +125,11 @@ func onceBodies(P *Program) map[*ssa.Function]*ssa.Call {
 		}
 		for _, ci := range callsIn(fn) {
 			c, ok := ci.(*ssa.Call)
-			if !ok || !calleeIs(c, "(*sync.Once).Do") || len(c.Call.Args) < 2 {
+			if !ok || !calleeIs(c, "(*sync.Once).Do") || len(callArgs(c)) < 2 {
 				continue
 			}
 			var body *ssa.Function
-			switch a := c.Call.Args[1].(type) {
+			switch a := callArgs(c)[1].(type) {
 			case *ssa.MakeClosure:
 				body, _ = a.Fn.(*ssa.Function)
 			case *ssa.Function:
@@ -247,7 +247,7 @@ func sharedWritesRule(P *Program, R *Report) {
 				case *ssa.MapUpdate:
 					addr = x.Map
 				case *ssa.Call:
-					addr = x.Call.Args[0]
+					addr = callArgs(x)[0]
 				}
 				if p, isP := rootParam(addr); isP && freshAtAllCallers(P, fn, p, inReach, 0) {
 					ok, how = true, "object is freshly created by every caller"
@@ -271,8 +271,8 @@ func sharedWritesRule(P *Program, R *Report) {
 					record(x, t+"[...]")
 				}
 			case *ssa.Call:
-				if m := bigMethod(x); m != "" && bigMutators[m] && len(x.Call.Args) > 0 {
-					if t, ok := sharedRoot(x.Call.Args[0]); ok {
+				if m := bigMethod(x); m != "" && bigMutators[m] && len(callArgs(x)) > 0 {
+					if t, ok := sharedRoot(callArgs(x)[0]); ok {
 						record(x, t+" (in-place "+m+")")
 					}
 				}
@@ -334,8 +334,8 @@ func globalsInitOnlyRule(P *Program, R *Report, rule string) {
 			if !ok || isInit {
 				return
 			}
-			if m := bigMethod(c); m != "" && bigMutators[m] && len(c.Call.Args) > 0 {
-				if u, ok := c.Call.Args[0].(*ssa.UnOp); ok {
+			if m := bigMethod(c); m != "" && bigMutators[m] && len(callArgs(c)) > 0 {
+				if u, ok := callArgs(c)[0].(*ssa.UnOp); ok {
 					if g, ok := rootOfAddr(u.X).(*ssa.Global); ok && g.Pkg != nil && inModule(g.Pkg.Pkg) {
 						name := shortPkg(g.Pkg.Pkg.Path()) + "." + g.Name()
 						bad[name] = append(bad[name], FuncKey(fn)+" mutates in place at "+P.Pos(c.Pos()))
@@ -463,7 +463,7 @@ func workerPoolRule(P *Program, R *Report) {
 					}
 				case *ssa.Call:
 					if isCallTo(x, "builtin:append") {
-						for _, base := range sliceRoots(x.Call.Args[0]) {
+						for _, base := range sliceRoots(callArgs(x)[0]) {
 							if _, isFV := rootOfAddr(base).(*ssa.FreeVar); isFV {
 								badw = append(badw, "append to captured slice at "+P.Pos(x.Pos()))
 							}
@@ -521,8 +521,8 @@ func publicKeyReadOnlyRule(P *Program, R *Report) {
 				n++
 				check(x.Addr, "stores to")
 			case *ssa.Call:
-				if m := bigMethod(x); m != "" && bigMutators[m] && len(x.Call.Args) > 0 {
-					check(x.Call.Args[0], "mutates in place")
+				if m := bigMethod(x); m != "" && bigMutators[m] && len(callArgs(x)) > 0 {
+					check(callArgs(x)[0], "mutates in place")
 				}
 			}
 		})
@@ -604,7 +604,7 @@ func freshAtAllCallers(P *Program, fn *ssa.Function, p *ssa.Parameter, reach map
 				continue
 			}
 			n++
-			args := c.Common().Args
+			args := callArgs(c)
 			if c.Common().IsInvoke() {
 				args = append([]ssa.Value{c.Common().Value}, args...)
 			}
@@ -647,7 +647,7 @@ func sliceRoots(v ssa.Value) []ssa.Value {
 			}
 		case *ssa.Call:
 			if isCallTo(y, "builtin:append") {
-				walk(y.Call.Args[0])
+				walk(callArgs(y)[0])
 				return
 			}
 			out = append(out, x)
@@ -682,7 +682,7 @@ func onceGuardedReadsRule(P *Program, R *Report) {
 		allInstrs(cl, func(i ssa.Instruction) {
 			if st, ok := i.(*ssa.Store); ok {
 				if fa, ok := st.Addr.(*ssa.FieldAddr); ok {
-					lazy[tf{typeKey(fa.X.Type()), fieldName(fa.X.Type(), fa.Field)}] = cl
+					lazy[tf{faType(fa), faName(fa)}] = cl
 				}
 			}
 		})
@@ -699,7 +699,7 @@ func onceGuardedReadsRule(P *Program, R *Report) {
 			var loads []*ssa.UnOp
 			allInstrs(fn, func(i ssa.Instruction) {
 				if ld, ok := i.(*ssa.UnOp); ok && ld.Op == token.MUL {
-					if fa, ok := ld.X.(*ssa.FieldAddr); ok && typeKey(fa.X.Type()) == k.t && fieldName(fa.X.Type(), fa.Field) == k.f {
+					if fa, ok := ld.X.(*ssa.FieldAddr); ok && faType(fa) == k.t && faName(fa) == k.f {
 						if _, fresh := rootOfAddr(fa.X).(*ssa.Alloc); !fresh {
 							loads = append(loads, ld)
 						}
@@ -749,7 +749,7 @@ func sharedScratchRule(P *Program, R *Report) {
 				continue
 			}
 			nCalls++
-			for k, a := range call.Call.Args {
+			for k, a := range callArgs(call) {
 				var addr ssa.Value
 				switch a.(type) {
 				case *ssa.FieldAddr, *ssa.IndexAddr:
